@@ -1,10 +1,811 @@
+// C18 harness: runtime/timed Queue / Executor / TaskExecutor.
+//
+//	script : deterministic scenarios on a real TaskExecutor (blocking callbacks, times either past or far future);
+//	         after every client operation the implementation settles; observed per operation: return value,
+//	         Size(), callbacks started so far, callbacks finished so far  -> CScript cases (lockstep with the model).
+//	hist   : timing runs on a coarse grid; the recorded history (monotonic stamps, microseconds) is judged by a
+//	         Go-side oracle (never_early, at_most_once, cancel_honoured, all_delivered) and emitted as CHist
+//	         cases on which Coq re-evaluates the same predicates of the model.
+//	hook   : the poller is held between pop and select, Cancel completes, the poller continues (D18c).
 package main
 
-import "os"
+import (
+	"flag"
+	"fmt"
+	"os"
+	"sort"
+	"strings"
+	"sync"
+	"time"
+
+	"github.com/iotaledger/hive.go/runtime/timed"
+
+	"verif/harness/vx"
+)
+
+// ---------------------------------------------------------------- scripts
+
+type sop struct {
+	Kind string `json:"k"`             // add cancel tcancel release shutdown
+	Off  int    `json:"off,omitempty"` // add: <0 = that many seconds in the past, >0 = that many hours in the future
+	Key  int    `json:"key"`           // add: -1 = plain Executor.ExecuteAt; tcancel: identifier
+	B    bool   `json:"b,omitempty"`   // add: the callback blocks until released
+	E    int    `json:"e,omitempty"`   // cancel / release: element id (= index among accepted adds)
+	FC   bool   `json:"fc,omitempty"`
+	FI   bool   `json:"fi,omitempty"`
+}
+
+const t0 = 1000000
+
+func (o sop) coq() string {
+	switch o.Kind {
+	case "add":
+		k := "None"
+		if o.Key >= 0 {
+			k = fmt.Sprintf("(Some %d)", o.Key)
+		}
+		return fmt.Sprintf("SAdd %s %s %s", vx.N(uint64(t0+o.Off)), k, vx.Bool(o.B))
+	case "cancel":
+		return fmt.Sprintf("SCancel %d", o.E)
+	case "tcancel":
+		return fmt.Sprintf("STCancel %d", o.Key)
+	case "release":
+		return fmt.Sprintf("SRelease %d", o.E)
+	}
+	return fmt.Sprintf("SShutdown %s %s", vx.Bool(o.FC), vx.Bool(o.FI))
+}
+
+type obsT struct {
+	Ret      int   // -1 none, 0 false, 1 true
+	Size     int   // -1 = the operation hung
+	Started  []int // sorted
+	Finished []int
+}
+
+func (o obsT) coq() string {
+	r := "None"
+	if o.Ret >= 0 {
+		r = "(Some " + vx.Bool(o.Ret == 1) + ")"
+	}
+	f := func(x int) string { return fmt.Sprint(x) }
+	return fmt.Sprintf("(%s, %d, %s, %s)", r, o.Size, vx.ListOf(o.Started, f), vx.ListOf(o.Finished, f))
+}
+
+func (o obsT) key() string { return o.coq() }
+
+// guard runs f under a watchdog: a hang becomes an outcome.
+func guard(f func()) bool {
+	done := make(chan struct{})
+	go func() { f(); close(done) }()
+	return waitFor(done, 5*time.Second)
+}
+
+type scriptRun struct {
+	mu       sync.Mutex
+	started  []int
+	finished []int
+}
+
+func (r *scriptRun) snap(te *timed.TaskExecutor[int]) (int, []int, []int) {
+	sz := te.Size()
+	r.mu.Lock()
+	defer r.mu.Unlock()
+	s := append([]int(nil), r.started...)
+	f := append([]int(nil), r.finished...)
+	sort.Ints(s)
+	sort.Ints(f)
+	return sz, s, f
+}
+
+// settle waits until (Size, #started, #finished) has not changed for win (and at least win has passed).
+func (r *scriptRun) settle(te *timed.TaskExecutor[int], win time.Duration) {
+	last := [3]int{-2, 0, 0}
+	stableSince := time.Now()
+	deadline := time.Now().Add(20 * win)
+	for {
+		sz := te.Size()
+		r.mu.Lock()
+		cur := [3]int{sz, len(r.started), len(r.finished)}
+		r.mu.Unlock()
+		if cur != last {
+			last, stableSince = cur, time.Now()
+		} else if time.Since(stableSince) >= win {
+			return
+		}
+		if time.Now().After(deadline) {
+			return
+		}
+		time.Sleep(time.Millisecond)
+	}
+}
+
+func runScript(nw, maxsz int, ops []sop, win time.Duration) []obsT {
+	te := timed.NewTaskExecutor[int](nw, timed.WithMaxQueueSize(maxsz))
+	base := time.Now()
+	r := &scriptRun{}
+	var elems []*timed.ScheduledTask
+	rel := map[int]chan struct{}{}
+	released := map[int]bool{}
+	var out []obsT
+	for _, op := range ops {
+		ret := -1
+		hung := false
+		switch op.Kind {
+		case "add":
+			id := len(elems)
+			var ch chan struct{}
+			if op.B {
+				ch = make(chan struct{})
+			}
+			cb := func() {
+				r.mu.Lock()
+				r.started = append(r.started, id)
+				r.mu.Unlock()
+				if ch != nil {
+					<-ch
+				}
+				r.mu.Lock()
+				r.finished = append(r.finished, id)
+				r.mu.Unlock()
+			}
+			var at time.Time
+			if op.Off < 0 {
+				at = base.Add(time.Duration(op.Off) * time.Second)
+			} else {
+				at = base.Add(time.Duration(op.Off) * time.Hour)
+			}
+			var task *timed.ScheduledTask
+			hung = !guard(func() {
+				if op.Key < 0 {
+					task = te.Executor.ExecuteAt(cb, at)
+				} else {
+					task = te.ExecuteAt(op.Key, cb, at)
+				}
+			})
+			ret = 0
+			if task != nil {
+				ret = 1
+				elems = append(elems, task)
+				if ch != nil {
+					rel[id] = ch
+				}
+			}
+		case "cancel":
+			if op.E < len(elems) {
+				hung = !guard(func() { elems[op.E].Cancel() })
+			}
+		case "tcancel":
+			var c bool
+			hung = !guard(func() { c = te.Cancel(op.Key) })
+			ret = 0
+			if c {
+				ret = 1
+			}
+		case "release":
+			if ch, ok := rel[op.E]; ok {
+				if !released[op.E] {
+					released[op.E] = true
+					close(ch)
+				}
+			}
+		case "shutdown":
+			var fl []timed.ShutdownFlag
+			if op.FC {
+				fl = append(fl, timed.CancelPendingElements)
+			}
+			if op.FI {
+				fl = append(fl, timed.IgnorePendingTimeouts)
+			}
+			fl = append(fl, timed.DontWaitForShutdown)
+			hung = !guard(func() { te.Shutdown(fl...) })
+		}
+		r.settle(te, win)
+		sz, s, f := r.snap(te)
+		if hung {
+			sz = -1
+		}
+		out = append(out, obsT{Ret: ret, Size: sz, Started: s, Finished: f})
+	}
+	// clean-up: free every goroutine
+	for id, ch := range rel {
+		if !released[id] {
+			close(ch)
+		}
+	}
+	te.Shutdown(timed.CancelPendingElements, timed.DontWaitForShutdown)
+	for _, e := range elems {
+		e.Cancel()
+	}
+	return out
+}
+
+func obsKey(o []obsT) string {
+	p := make([]string, len(o))
+	for i, x := range o {
+		p[i] = x.key()
+	}
+	return strings.Join(p, ";")
+}
+
+type script struct {
+	NW    int    `json:"workers"`
+	MaxSz int    `json:"maxsize"`
+	Ops   []sop  `json:"ops"`
+	Tag   string `json:"tag"`
+}
+
+func directedScripts() []script {
+	add := func(key, off int, b bool) sop { return sop{Kind: "add", Key: key, Off: off, B: b} }
+	tc := func(k int) sop { return sop{Kind: "tcancel", Key: k} }
+	rl := func(e int) sop { return sop{Kind: "release", E: e} }
+	sh := func(fc, fi bool) sop { return sop{Kind: "shutdown", FC: fc, FI: fi} }
+	return []script{
+		// D18a: re-schedule while the previous callback of the identifier runs; then Cancel; then a third task
+		{1, 0, []sop{add(1, -1, true), add(1, 2, false), rl(0), tc(1), add(1, 3, false), add(1, 4, false), tc(1), tc(1), sh(false, true)}, "D18a"},
+		// D18b: Cancel(id) while the callback is running
+		{1, 0, []sop{add(1, -1, true), tc(1), rl(0), tc(1), sh(false, false)}, "D18b"},
+		// replace a parked task by a due one; cancel a task in the heap behind a busy worker
+		{1, 0, []sop{add(0, 5, false), add(0, -1, true), add(2, -2, false), add(2, -1, false), tc(2), rl(1), tc(0), sh(true, false)}, "replace"},
+		// size bound: which element goes (array slot len-1 after the sift-up), and the identifier stays tracked
+		{0, 2, []sop{add(0, 30, false), add(1, 10, false), add(2, 20, false), tc(0), tc(1), tc(2), sh(false, true)}, "maxsize"},
+		{0, 3, []sop{add(-1, 5, false), add(-1, 3, false), add(-1, 4, false), add(-1, 1, false), add(-1, 2, false), {Kind: "cancel", E: 1}, add(-1, 6, false), sh(false, true)}, "maxsize2"},
+		{1, 3, []sop{add(-1, 9, false), add(0, 5, false), add(1, 3, false), add(2, 4, false), add(0, 1, false), add(1, 8, false), tc(0), tc(1), tc(2), sh(false, true)}, "maxsize3"},
+		// shutdown flags with pending elements; adds after the shutdown are refused
+		{2, 0, []sop{add(0, 3, false), add(1, 2, false), add(2, 1, false), add(-1, -1, true), sh(false, false), add(0, -1, false), tc(0), tc(2), rl(3)}, "shutdown-none"},
+		{2, 0, []sop{add(0, 3, false), add(1, 2, false), add(2, 1, false), sh(false, true), add(0, -1, false), tc(0)}, "shutdown-ignore"},
+		{2, 0, []sop{add(0, 3, false), add(1, 2, false), add(2, 1, false), sh(true, false), add(0, -1, false), tc(0), tc(1)}, "shutdown-cancel"},
+		{1, 0, []sop{add(0, -1, true), add(1, -1, false), add(2, 1, false), sh(true, true), rl(0), tc(1)}, "shutdown-both"},
+		// direct Cancel() on the returned task bypasses the identifier map
+		{1, 0, []sop{add(0, 2, false), {Kind: "cancel", E: 0}, tc(0), add(0, -1, false), tc(0)}, "direct-cancel"},
+	}
+}
+
+func genScript(r *vx.Rng, maxLen int) script {
+	sc := script{NW: vx.Pick(r, []int{0, 1, 1, 1, 2, 2, 3}), MaxSz: vx.Pick(r, []int{0, 0, 0, 0, 1, 2, 3}), Tag: "random"}
+	n := 4 + r.Intn(maxLen-3)
+	accepted := 0
+	var blockedIDs []int
+	shut := false
+	for i := 0; i < n; i++ {
+		p := r.Intn(100)
+		switch {
+		case p < 50:
+			o := sop{Kind: "add", Key: r.Intn(4) - 1}
+			if r.Chance(1, 2) {
+				o.Off = -(1 + r.Intn(3))
+				o.B = r.Chance(1, 2)
+			} else {
+				o.Off = 1 + r.Intn(7)
+			}
+			if !shut {
+				if o.B {
+					blockedIDs = append(blockedIDs, accepted)
+				}
+				accepted++
+			}
+			sc.Ops = append(sc.Ops, o)
+		case p < 70:
+			sc.Ops = append(sc.Ops, sop{Kind: "tcancel", Key: r.Intn(3)})
+		case p < 77:
+			sc.Ops = append(sc.Ops, sop{Kind: "cancel", E: r.Intn(accepted + 1)})
+		case p < 93:
+			if len(blockedIDs) > 0 && r.Chance(4, 5) {
+				j := r.Intn(len(blockedIDs))
+				sc.Ops = append(sc.Ops, sop{Kind: "release", E: blockedIDs[j]})
+				blockedIDs = append(blockedIDs[:j], blockedIDs[j+1:]...)
+			} else {
+				sc.Ops = append(sc.Ops, sop{Kind: "release", E: r.Intn(accepted + 2)})
+			}
+		default:
+			sc.Ops = append(sc.Ops, sop{Kind: "shutdown", FC: r.Chance(1, 3), FI: r.Chance(1, 2)})
+			shut = true
+		}
+	}
+	if r.Chance(2, 3) {
+		for _, b := range blockedIDs {
+			sc.Ops = append(sc.Ops, sop{Kind: "release", E: b})
+		}
+		sc.Ops = append(sc.Ops, sop{Kind: "shutdown", FI: true}) // flush: shows which elements are still there
+	}
+	return sc
+}
+
+// scriptOracle: model-independent checks on the observations (identifier-map logic only where it is unambiguous):
+// a callback starts at most once; Cancel(id) = true is never followed by the start of the task it removed (the
+// task tracked for id is the last accepted add of id); sizes are within the bound.
+func scriptOracle(sc script, o []obsT) string {
+	tracked := map[int]int{} // identifier -> element id of its last accepted add
+	dead := map[int]bool{}
+	id := 0
+	for i, op := range sc.Ops {
+		ob := o[i]
+		if ob.Size < 0 {
+			return fmt.Sprintf("operation %d hung", i)
+		}
+		if sc.MaxSz > 0 && ob.Size > sc.MaxSz {
+			return fmt.Sprintf("size %d exceeds the bound after op %d", ob.Size, i)
+		}
+		seen := map[int]bool{}
+		for _, s := range ob.Started {
+			if seen[s] {
+				return fmt.Sprintf("callback %d started twice", s)
+			}
+			seen[s] = true
+		}
+		prevStarted := map[int]bool{}
+		if i > 0 {
+			for _, s := range o[i-1].Started {
+				prevStarted[s] = true
+			}
+		}
+		switch op.Kind {
+		case "add":
+			if ob.Ret == 1 {
+				if op.Key >= 0 {
+					if old, ok := tracked[op.Key]; ok && !prevStarted[old] {
+						dead[old] = true // replaced before it started
+					}
+					tracked[op.Key] = id
+				}
+				id++
+			}
+		case "tcancel":
+			if e, ok := tracked[op.Key]; ok && ob.Ret == 1 && !prevStarted[e] {
+				dead[e] = true
+			}
+			if ob.Ret == 1 {
+				delete(tracked, op.Key)
+			}
+		}
+		for _, s := range ob.Started {
+			if dead[s] && !prevStarted[s] {
+				return fmt.Sprintf("task %d started after it was cancelled/replaced (op %d)", s, i)
+			}
+		}
+	}
+	return ""
+}
+
+func runScriptStable(sc script, win time.Duration) ([]obsT, bool) {
+	o1 := runScript(sc.NW, sc.MaxSz, sc.Ops, win)
+	o2 := runScript(sc.NW, sc.MaxSz, sc.Ops, win)
+	if obsKey(o1) != obsKey(o2) {
+		// two runs of a deterministic scenario disagree: timing noise (or a real race). Decide with a slow run.
+		return runScript(sc.NW, sc.MaxSz, sc.Ops, 6*win), true
+	}
+	return o1, false
+}
+
+func emitScript(cf *vx.CasesFile, st *vx.Stats, sc script, o1 []obsT, retried bool) {
+	if retried {
+		st.Count("script:settle-retry")
+	}
+	cf.Add(fmt.Sprintf("CScript %d %d %s %s", sc.NW, sc.MaxSz, vx.ListOf(sc.Ops, sop.coq), vx.ListOf(o1, obsT.coq)))
+	parts := make([]string, len(sc.Ops))
+	nontrivial := false
+	for i, op := range sc.Ops {
+		parts[i] = op.coq()
+		st.Count("script-op:" + op.Kind)
+		if op.Kind == "tcancel" && o1[i].Ret == 1 {
+			nontrivial = true
+		}
+	}
+	st.Count(fmt.Sprintf("script:workers=%d", sc.NW))
+	st.Count(fmt.Sprintf("script:maxsize=%d", sc.MaxSz))
+	st.Case(fmt.Sprintf("S%d/%d:%s", sc.NW, sc.MaxSz, strings.Join(parts, ";")), nontrivial || len(o1[len(o1)-1].Started) >= 2)
+	st.CaseIndex = append(st.CaseIndex, map[string]any{"kind": "script", "script": sc})
+	st.Sample(map[string]any{"script": parts, "observed": obsKey(o1)}, 2)
+	if why := scriptOracle(sc, o1); why != "" {
+		st.Fail(map[string]any{"sig": "", "kind": "script", "script": sc, "why": why})
+	}
+}
+
+// ---------------------------------------------------------------- timing histories
+
+type hev struct {
+	Kind string `json:"k"` // add cancel shutdown deliver discard
+	E    int    `json:"e"`
+	Due  int64  `json:"due,omitempty"`
+	At   int64  `json:"at"`
+	FC   bool   `json:"fc,omitempty"`
+	FI   bool   `json:"fi,omitempty"`
+}
+
+func (h hev) coq() string {
+	switch h.Kind {
+	case "add":
+		return fmt.Sprintf("EAdd %d %s None %s", h.E, vx.N(uint64(h.Due)), vx.N(uint64(h.At)))
+	case "cancel":
+		return fmt.Sprintf("ECancel %d false %s", h.E, vx.N(uint64(h.At)))
+	case "shutdown":
+		return fmt.Sprintf("EShutdown %s %s %s", vx.Bool(h.FC), vx.Bool(h.FI), vx.N(uint64(h.At)))
+	case "deliver":
+		return fmt.Sprintf("EDeliver %d %s", h.E, vx.N(uint64(h.At)))
+	}
+	return fmt.Sprintf("EDiscard %d", h.E)
+}
+
+type plan struct {
+	Executor bool     `json:"executor"` // else Queue with pollers
+	NW       int      `json:"workers"`
+	Slots    int      `json:"slots"`
+	Ops      []planOp `json:"ops"`
+	GridMs   int      `json:"grid_ms"`
+}
+
+type planOp struct {
+	Slot    int    `json:"slot"`
+	Kind    string `json:"k"` // add cancel shutdown
+	DueSlot int    `json:"due_slot,omitempty"`
+	E       int    `json:"e,omitempty"`
+	FC      bool   `json:"fc,omitempty"`
+	FI      bool   `json:"fi,omitempty"`
+}
+
+const stampBase = 10_000_000 // microseconds; keeps "past" due times positive
+
+func genPlan(r *vx.Rng, gridMs int) plan {
+	p := plan{Executor: r.Bool(), NW: 1 + r.Intn(3), Slots: 7 + r.Intn(5), GridMs: gridMs}
+	type el struct{ dueSlot int }
+	var els []el
+	shutAt := -1
+	if r.Chance(3, 5) {
+		shutAt = 2 + r.Intn(p.Slots-2)
+	}
+	for s := 0; s < p.Slots; s++ {
+		if s == shutAt {
+			p.Ops = append(p.Ops, planOp{Slot: s, Kind: "shutdown", FC: r.Chance(1, 4), FI: r.Chance(1, 3)})
+		}
+		k := r.Intn(3)
+		for j := 0; j < k; j++ {
+			if len(els) > 0 && r.Chance(1, 3) {
+				p.Ops = append(p.Ops, planOp{Slot: s, Kind: "cancel", E: r.Intn(len(els))})
+			} else {
+				d := s + r.Intn(6) - 1 // -1: already due
+				p.Ops = append(p.Ops, planOp{Slot: s, Kind: "add", DueSlot: d})
+				if shutAt < 0 || s < shutAt {
+					els = append(els, el{d})
+				}
+			}
+		}
+	}
+	return p
+}
+
+// runPlan executes the plan in real time and returns the recorded history (oldest first).
+func runPlan(p plan) (hist []hev, notes []string) {
+	grid := time.Duration(p.GridMs) * time.Millisecond
+	start := time.Now()
+	stamp := func() int64 { return stampBase + time.Since(start).Microseconds() }
+	var mu sync.Mutex
+	var delivered []hev
+	record := func(e int) {
+		a := stamp()
+		mu.Lock()
+		delivered = append(delivered, hev{Kind: "deliver", E: e, At: a})
+		mu.Unlock()
+	}
+	var q *timed.Queue[int]
+	var ex *timed.Executor
+	var pollers sync.WaitGroup
+	if p.Executor {
+		ex = timed.NewExecutor(p.NW)
+	} else {
+		q = timed.NewQueue[int]()
+		for i := 0; i < p.NW; i++ {
+			pollers.Add(1)
+			go func() {
+				defer pollers.Done()
+				for {
+					v := q.Poll(true)
+					if v == 0 { // empty value: the queue was shut down (values are id+1)
+						return
+					}
+					record(v - 1)
+				}
+			}()
+		}
+	}
+	var qelems []*timed.QueueElement[int]
+	var xelems []*timed.ScheduledTask
+	nacc := 0
+	var maxDue int64
+	isFC, shutdown := false, false
+	shutRet := make(chan struct{})
+	doShutdown := func(fc, fi bool) {
+		var fl []timed.ShutdownFlag
+		if fc {
+			fl = append(fl, timed.CancelPendingElements)
+		}
+		if fi {
+			fl = append(fl, timed.IgnorePendingTimeouts)
+		}
+		hist = append(hist, hev{Kind: "shutdown", FC: fc, FI: fi, At: stamp()})
+		shutdown, isFC = true, fc
+		// the shutdown itself is synchronous (no Add runs concurrently with it); waiting for the workers is not
+		if p.Executor {
+			ex.Shutdown(append(fl, timed.DontWaitForShutdown)...)
+		} else {
+			q.Shutdown(fl...)
+		}
+		go func() {
+			if p.Executor {
+				ex.Shutdown() // already shut down: only waits for the workers
+			} else {
+				pollers.Wait()
+			}
+			close(shutRet)
+		}()
+	}
+	for _, op := range p.Ops {
+		if d := time.Until(start.Add(time.Duration(op.Slot) * grid)); d > 0 {
+			time.Sleep(d)
+		}
+		switch op.Kind {
+		case "add":
+			due := time.Duration(op.DueSlot)*grid + grid/2
+			id := nacc
+			at := stamp()
+			var ok bool
+			if p.Executor {
+				t := ex.ExecuteAt(func() { record(id) }, start.Add(due))
+				if ok = t != nil; ok {
+					xelems = append(xelems, t)
+				}
+			} else {
+				t := q.Add(id+1, start.Add(due))
+				if ok = t != nil; ok {
+					qelems = append(qelems, t)
+				}
+			}
+			if ok {
+				hist = append(hist, hev{Kind: "add", E: id, Due: stampBase + due.Microseconds(), At: at})
+				nacc++
+				if stampBase+due.Microseconds() > maxDue {
+					maxDue = stampBase + due.Microseconds()
+				}
+			} else if !shutdown {
+				notes = append(notes, "Add refused before any Shutdown")
+			}
+		case "cancel":
+			if op.E < nacc {
+				if p.Executor {
+					xelems[op.E].Cancel()
+				} else {
+					qelems[op.E].Cancel()
+				}
+				hist = append(hist, hev{Kind: "cancel", E: op.E, At: stamp()})
+			}
+		case "shutdown":
+			if !shutdown {
+				doShutdown(op.FC, op.FI)
+			}
+		}
+	}
+	if !shutdown {
+		doShutdown(false, false)
+	}
+	cancelled := map[int]bool{}
+	for _, h := range hist {
+		if h.Kind == "cancel" {
+			cancelled[h.E] = true
+		}
+	}
+	// wait: Shutdown must return once every pending element had its time (3 s of slack), then one more grid step
+	// for late duplicates
+	limit := time.Duration(maxDue-stampBase)*time.Microsecond + 3*time.Second
+	if d := time.Until(start.Add(limit)); d > 0 {
+		if !waitFor(shutRet, d) {
+			notes = append(notes, "Shutdown did not return within 3 s after the last scheduled time")
+		}
+	}
+	time.Sleep(grid)
+	mu.Lock()
+	hist = append(hist, delivered...)
+	mu.Unlock()
+	if isFC {
+		got := map[int]bool{}
+		for _, h := range hist {
+			if h.Kind == "deliver" {
+				got[h.E] = true
+			}
+		}
+		for e := 0; e < nacc; e++ {
+			if !got[e] && !cancelled[e] {
+				hist = append(hist, hev{Kind: "discard", E: e, At: stamp()}) // CancelPendingElements: assumed discarded
+			}
+		}
+	}
+	sort.SliceStable(hist, func(i, j int) bool { return hist[i].At < hist[j].At })
+	// release everything
+	for _, e := range qelems {
+		e.Cancel()
+	}
+	for _, e := range xelems {
+		e.Cancel()
+	}
+	return hist, notes
+}
+
+// judgeHist: Go-side oracle, written against the property statement (not the model).
+func judgeHist(h []hev, bandUs int64) [4]bool {
+	due := map[int]int64{}
+	cancelAt := map[int]int64{}
+	final := map[int]bool{}
+	ignoreAt := int64(-1)
+	count := map[int]int{}
+	for _, e := range h {
+		switch e.Kind {
+		case "add":
+			due[e.E] = e.Due
+		case "cancel":
+			if _, ok := cancelAt[e.E]; !ok {
+				cancelAt[e.E] = e.At
+			}
+			final[e.E] = true
+		case "shutdown":
+			if e.FI && ignoreAt < 0 {
+				ignoreAt = e.At
+			}
+		case "discard":
+			final[e.E] = true
+		}
+	}
+	v := [4]bool{true, true, true, true}
+	for _, e := range h {
+		if e.Kind != "deliver" {
+			continue
+		}
+		count[e.E]++
+		final[e.E] = true
+		d, ok := due[e.E]
+		if !ok || (e.At < d && !(ignoreAt >= 0 && e.At >= ignoreAt)) {
+			v[0] = false
+		}
+		if count[e.E] > 1 {
+			v[1] = false
+		}
+		if c, ok := cancelAt[e.E]; ok && e.At > c+bandUs {
+			v[2] = false
+		}
+	}
+	for e := range due {
+		if !final[e] {
+			v[3] = false
+		}
+	}
+	return v
+}
+
+func emitHist(cf *vx.CasesFile, st *vx.Stats, p plan, hist []hev, notes []string) {
+	band := int64(p.GridMs) * 1000
+	v := judgeHist(hist, band)
+	rev := make([]string, len(hist))
+	nd, nc := 0, 0
+	for i, h := range hist {
+		rev[len(hist)-1-i] = h.coq()
+		st.Count("hist-ev:" + h.Kind)
+		if h.Kind == "deliver" {
+			nd++
+		}
+		if h.Kind == "cancel" {
+			nc++
+		}
+	}
+	vb := []string{vx.Bool(v[0]), vx.Bool(v[1]), vx.Bool(v[2]), vx.Bool(v[3])}
+	cf.Add(fmt.Sprintf("CHist %s %s %s", vx.N(uint64(band)), vx.List(rev), vx.List(vb)))
+	target := "queue"
+	if p.Executor {
+		target = "executor"
+	}
+	st.Count(fmt.Sprintf("hist:%s/workers=%d", target, p.NW))
+	st.Case(fmt.Sprintf("H%v", p), nd >= 2)
+	st.CaseIndex = append(st.CaseIndex, map[string]any{"kind": "hist", "plan": p})
+	st.Sample(map[string]any{"plan": p, "deliveries": nd, "cancels": nc, "verdict": v}, 4)
+	names := []string{"never_early", "at_most_once", "cancel_honoured", "all_delivered"}
+	for i, ok := range v {
+		if !ok {
+			st.Fail(map[string]any{"sig": "", "kind": "hist", "violated": names[i], "plan": p, "history": hist})
+		}
+	}
+	for _, n := range notes {
+		st.Fail(map[string]any{"sig": "", "kind": "hist", "violated": n, "plan": p, "history": hist})
+	}
+}
+
+// ---------------------------------------------------------------- main
 
 func main() {
 	if len(os.Args) > 1 && os.Args[1] == "probe" {
 		probes()
 		return
+	}
+	if len(os.Args) < 2 || os.Args[1] != "run" {
+		vx.Die("usage: hx-c18 run --scripts N --len L --hists H --grid MS --win MS --hook T --seed S --out cases.v --stats stats.json | hx-c18 probe")
+	}
+	fs := flag.NewFlagSet("run", flag.ExitOnError)
+	nScripts := fs.Int("scripts", 200, "")
+	maxLen := fs.Int("len", 12, "")
+	nHists := fs.Int("hists", 96, "")
+	gridMs := fs.Int("grid", 50, "")
+	winMs := fs.Int("win", 30, "")
+	hookTrials := fs.Int("hook", 600, "")
+	par := fs.Int("par", 32, "")
+	seed := fs.Uint64("seed", 1, "")
+	out := fs.String("out", "cases.v", "")
+	stats := fs.String("stats", "stats.json", "")
+	_ = fs.Parse(os.Args[2:])
+	r := vx.NewRng(*seed)
+	st := vx.NewStats("scripts: deterministic TaskExecutor scenarios (0-3 workers, size bound 0-3, identifiers 0-2, past/future times, blocking callbacks, direct and by-identifier cancels, shutdown flags), distinct = distinct (config, op list), non-trivial = some Cancel(id) returned true or >= 2 callbacks started | hists: timing runs on a grid (Queue with pollers / Executor, 1-3 workers, adds due -1..4 slots ahead, cancels, shutdown flags), non-trivial = >= 2 deliveries")
+	cf := &vx.CasesFile{
+		Header: "From Coq Require Import NArith List.\nFrom Verif.C18_Timed Require Import Model Corr.\nImport ListNotations.\n",
+		Type:   "case",
+		Footer: "Definition M := Eval vm_compute in mismatches cases.\nPrint M.\n",
+	}
+	win := time.Duration(*winMs) * time.Millisecond
+
+	// scripts: generated first (sequential rng), run in parallel, emitted in order
+	scripts := directedScripts()
+	for len(scripts) < *nScripts {
+		scripts = append(scripts, genScript(r.Fork(), *maxLen))
+	}
+	sem := make(chan struct{}, *par)
+	var wg sync.WaitGroup
+	tmpO := make([][]obsT, len(scripts))
+	tmpR := make([]bool, len(scripts))
+	for i := range scripts {
+		wg.Add(1)
+		sem <- struct{}{}
+		go func(i int) {
+			defer wg.Done()
+			defer func() { <-sem }()
+			tmpO[i], tmpR[i] = runScriptStable(scripts[i], win)
+		}(i)
+	}
+	wg.Wait()
+	for i := range scripts {
+		emitScript(cf, st, scripts[i], tmpO[i], tmpR[i])
+	}
+
+	// timing histories
+	plans := make([]plan, *nHists)
+	for i := range plans {
+		plans[i] = genPlan(r.Fork(), *gridMs)
+	}
+	type hres struct {
+		h []hev
+		n []string
+	}
+	tmpH := make([]hres, len(plans))
+	for i := range plans {
+		wg.Add(1)
+		sem <- struct{}{}
+		go func(i int) {
+			defer wg.Done()
+			defer func() { <-sem }()
+			h, n := runPlan(plans[i])
+			tmpH[i] = hres{h, n}
+		}(i)
+		time.Sleep(3 * time.Millisecond) // de-phase the grids
+	}
+	wg.Wait()
+	for i := range plans {
+		emitHist(cf, st, plans[i], tmpH[i].h, tmpH[i].n)
+	}
+
+	// D18c with the yield hook: a Cancel that returned before the select is entered must win
+	if *hookTrials > 0 {
+		d, hung := lateCancel(*hookTrials)
+		st.Count("hook:late-cancel-trials")
+		st.Extra["late_cancel"] = map[string]int{"trials": *hookTrials, "delivered": d, "hung": hung}
+		if d > 0 || hung > 0 {
+			st.Fail(map[string]any{"sig": "", "kind": "hook", "violated": "cancel_honoured", "what": fmt.Sprintf("Add(due); poller pops and is held before the select; Cancel() returns; poller continues: delivered in %d, hung in %d of %d trials", d, hung, *hookTrials)})
+		}
+	}
+	if err := cf.Write(*out); err != nil {
+		vx.Die("%v", err)
+	}
+	if err := st.Write(*stats); err != nil {
+		vx.Die("%v", err)
 	}
 }
